@@ -351,8 +351,12 @@ def program_src(pkg, op):
     if "security" in op["blocks"]:
         L += ["// Security:", "//   api_key:", "//"]
     if "inline_params" in op["blocks"]:
-        L += ["// Parameters:", "//   + name: ilimit", "//     in: query", "//     description: inline limit", "//     required: false",
-              "//     type: integer", "//     format: int32", "//"]
+        L += ["// Parameters:",
+              "//   + name: isort", "//     in: query", "//     description: inline order", "//     required: false", "//     type: string",
+              "//     enum: asc,desc", "//     default: asc",
+              "//   + name: ilimit", "//     in: query", "//     description: inline limit", "//     required: false",
+              "//     type: integer", "//     format: int32", "//     min: 1", "//     max: 50",
+              "//   + name: ioffset", "//     in: query", "//     description: inline offset", "//     required: false", "//     type: integer", "//"]
     resp = {"none": [], "default_only": ["default: genericError"], "ok_and_default": ["default: genericError", "200: petResponse"],
             "three": ["default: genericError", "200: petResponse", "422: validationError"]}[op["resp"]]
     if resp:
